@@ -3,6 +3,9 @@ use crate::core::*;
 pub mod c08;
 pub mod c09;
 pub mod c10;
+pub mod c16;
+pub mod c17;
+pub mod c18;
 pub mod c19;
 pub mod cong;
 pub mod script;
@@ -13,6 +16,9 @@ pub fn dispatch(args: &Args, rep: &mut Rep) -> bool {
         "C09" => c09::run(args, rep),
         "C10" => c10::run(args, rep),
         "C10red" => cong::run(args, rep, cong::Focus::Both),
+        "C16" => c16::run(args, rep),
+        "C17" => c17::run(args, rep),
+        "C18" => c18::run(args, rep),
         "C19" => c19::run(args, rep),
         "C01" => cong::run(args, rep, cong::Focus::Sound),
         "C02" => cong::run(args, rep, cong::Focus::Complete),
